@@ -168,6 +168,8 @@ class SigmaRuleBase:
                         "Sigma rule identifier must be an UUID", source=source
                     )
                 )
+                if not isinstance(rule_id, str):  # can't be kept as identifier (e.g. not hashable)
+                    rule_id = None
 
         # Rule name
         rule_name = rule.get("name")
